@@ -101,13 +101,61 @@ def rule_ckpt(ctx: Ctx) -> None:
     ok1 = any(t == 'state_dict=super().state_dict(include_factors=False)' for t in txt)
     ctx.check(ok1, 'TAB-GATHER', sd, 'scalar state from the base class', 'base state', 'state_dict does not start from super().state_dict(include_factors=False)', sd.node)
     gathers = [n for n in p.nodes(sd) if isinstance(n, ast.Call) and norm(n.func).endswith('all_gather_object')]
-    okg = len(gathers) == 1 and [re.sub(r'\s+', '', norm(a)) for a in gathers[0].args[:2]] == ['partitions', 'partition']
+    okg = len(gathers) == 1 and len(gathers[0].args) >= 2 and re.sub(r'\s+', '', norm(gathers[0].args[1])) == 'partition'
     ctx.check(okg, 'TAB-GATHER', sd, 'all ranks gather every partition', 'all_gather_object', f'state_dict gathers with {[norm(g)[:80] for g in gathers]}', sd.node)
-    size = [re.sub(r'\s+', '', norm(n.value)) for n in p.nodes(sd) if isinstance(n, ast.Assign) and norm(n.targets[0]) == 'partitions']
-    ctx.check(size == ['[Nonefor_inrange(get_world_size())]'], 'TAB-GATHER', sd, 'one slot per rank of the world', 'partitions', f'the receive list is {size}; one slot per rank of the gathering group (the world) is required', sd.node)
-    merge = [n for n in p.nodes(sd) if isinstance(n, ast.For) and re.sub(r'\s+', '', norm(n.iter)) == 'partitions']
-    okm = len(merge) == 1 and re.sub(r'\s+', '', norm(merge[0].body[0])) == 'forname,layer_state_dictinpartition:layers[name]=layer_state_dict' and any(t == "state_dict['layers']=layers" for t in txt)
-    ctx.check(okm, 'TAB-GATHER', sd, 'every entry of every partition merged into state_dict["layers"]', 'merge', 'state_dict does not merge every (name, state) of every gathered partition into the returned "layers"', merge[0] if merge else sd.node)
+    recv = norm(gathers[0].args[0]) if gathers and gathers[0].args else 'partitions'
+    size = [n.value for n in p.nodes(sd) if isinstance(n, ast.Assign) and norm(n.targets[0]) == recv]
+
+    def slots(e: ast.expr) -> str | None:
+        """Number of slots of a receive list written as [None for _ in range(W)], [None] * W or W * [None]."""
+        if isinstance(e, ast.ListComp) and len(e.generators) == 1 and not e.generators[0].ifs and norm(e.elt) == 'None' \
+                and isinstance(e.generators[0].iter, ast.Call) and norm(e.generators[0].iter.func) == 'range' and len(e.generators[0].iter.args) == 1:
+            return re.sub(r'\s+', '', norm(e.generators[0].iter.args[0]))
+        if isinstance(e, ast.BinOp) and isinstance(e.op, ast.Mult):
+            for a_, b_ in ((e.left, e.right), (e.right, e.left)):
+                if isinstance(a_, ast.List) and len(a_.elts) == 1 and norm(a_.elts[0]) == 'None':
+                    return re.sub(r'\s+', '', norm(b_))
+        return None
+    got_slots = [slots(v) for v in size]
+    ctx.check(got_slots == ['get_world_size()'], 'TAB-GATHER', sd, 'one slot per rank of the world', 'partitions',
+              f'the receive list is {[norm(v) for v in size]}; one slot per rank of the gathering group (the world) is required', sd.node)
+
+    base_g = {g.text() for g in flow.guards(p, sd, gathers[0])} if gathers else set()
+
+    def extra_guards(node: ast.AST) -> list[str]:
+        return [g.text() for g in flow.guards(p, sd, node) if g.text() not in base_g]
+
+    def merged(e: ast.expr, depth: int = 0) -> bool:
+        """e denotes {k: v for every (k, v) of every element of the receive list}, without a filter."""
+        if depth > 3:
+            return False
+        if isinstance(e, ast.DictComp) and len(e.generators) == 2 and not any(g.ifs for g in e.generators):
+            g1, g2 = e.generators
+            return norm(g1.iter) == recv and norm(g2.iter) == norm(g1.target) and isinstance(g2.target, ast.Tuple) and len(g2.target.elts) == 2 \
+                and norm(e.key) == norm(g2.target.elts[0]) and norm(e.value) == norm(g2.target.elts[1])
+        if isinstance(e, ast.Name):
+            inits = [n for n in p.nodes(sd) if isinstance(n, ast.Assign) and norm(n.targets[0]) == e.id]
+            if len(inits) == 1 and merged(inits[0].value, depth + 1):
+                return True
+            if len(inits) != 1 or norm(inits[0].value) not in ('{}', 'dict()'):
+                return False
+            for lp in [n for n in p.nodes(sd) if isinstance(n, ast.For) and norm(n.iter) == recv and not extra_guards(n)]:
+                for st_ in ast.walk(lp):
+                    if isinstance(st_, ast.Assign) and isinstance(st_.targets[0], ast.Subscript) and norm(st_.targets[0].value) == e.id:
+                        inner = [x for x in flow.enclosing_loops(p, sd, st_) if isinstance(x, ast.For)]
+                        gs = extra_guards(st_)
+                        if len(inner) == 2 and not gs and norm(inner[-1].iter if inner[-1] is not lp else inner[0].iter) == norm(lp.target):
+                            il = inner[-1] if inner[-1] is not lp else inner[0]
+                            if isinstance(il.target, ast.Tuple) and len(il.target.elts) == 2 and norm(st_.targets[0].slice) == norm(il.target.elts[0]) and norm(st_.value) == norm(il.target.elts[1]):
+                                return True
+                    if isinstance(st_, ast.Call) and isinstance(st_.func, ast.Attribute) and st_.func.attr == 'update' and norm(st_.func.value) == e.id and len(st_.args) == 1 \
+                            and norm(st_.args[0]) in (norm(lp.target), f'dict({norm(lp.target)})') and not extra_guards(st_):
+                        return True
+        return False
+    stores = [n for n in p.nodes(sd) if isinstance(n, ast.Assign) and re.sub(r'\s+', '', norm(n.targets[0])) == "state_dict['layers']"]
+    okm = len(stores) == 1 and merged(stores[0].value) and not extra_guards(stores[0])
+    ctx.check(okm, 'TAB-GATHER', sd, 'every entry of every partition merged into state_dict["layers"]', 'merge',
+              'state_dict does not merge every (name, state) of every gathered partition into the returned "layers"', stores[0] if stores else sd.node)
     ltxt = [re.sub(r'\s+', '', norm(st)) for st in ld.body]
     ctx.check(any(t == 'super().load_state_dict(state_dict,compute_inverses=False)' for t in ltxt) and any(t == "layers=state_dict.pop('layers',None)" for t in ltxt), 'TAB-GATHER', ld,
               'scalar state restored by the base class, layers handled here', 'base load', 'load_state_dict does not pop "layers" and delegate the scalar state to the base class', ld.node)
